@@ -255,6 +255,9 @@ def inputs_for(spec, obj, direction, rng, n_random=6):
     n = int(np.prod(shape)) if shape else 1
     k = spec["kind"]
     scalars = critical_points(spec, obj, direction) + [0.0, -0.0, 1.0, -1.0, 1e4, -1e4, 37.0, -37.0, 1e-8]
+    # the range where float32-minded shortcuts of the transcendental leaves (softplus(x) ~ x, tanh(x) ~ 1, exp(-x) ~ 0) are still wrong
+    # in float64: 15 .. 37 (seeded change C01g cut SoftPlus.inverse off at 20), both signs, seed-rotated
+    scalars += [float(s * v) for v, s in zip(rng.uniform(15.0, 37.0, 3), rng.choice([-1.0, 1.0], 3))] + [20.125, 16.5]
     if direction == "inv" and k in ("exp", "softplus"):
         scalars += list(np.exp(rng.normal(0, 3, 4)))
     if direction == "inv" and k in ("tanh",):
